@@ -357,3 +357,115 @@ def flagged_case(ctx, case):
         ctx.violation(dict(sig, q="flagged_roundtrip"), f"with flagged steps, roll-out ll {a.tolist()[:2]} vs re-evaluated per-step sum {b_.tolist()[:2]} vs re-evaluated sum {c.tolist()[:2]}", dict(B=B))
         return
     ctx.nontrivial_case(dict(c=case))
+
+
+def select_best_case(ctx, case):
+    """Best-of-k decoding (multi-sample / multi-start with select_best=True): the reward, per-step log-probs and actions handed
+    back for each instance must belong together - evaluating the returned actions on the instance reproduces the returned
+    reward and log-probs (envs whose reward is read from the final state show a state / action mix-up here)."""
+    kind, name, n, B, seed, k = case["policy"], case["env"], case["n"], case["B"], case["s"], case["k"]
+    env, O, cfg = policies.env_for(name, n, **case.get("extra", {}))
+    pol = policies.make(kind, env, seed=case.get("wseed", 0))
+    torch.manual_seed(seed)
+    td0 = env.reset(env.generator(batch_size=[B]))
+    dk = dict(num_starts=k) if case["decode"].startswith("multistart") else dict(num_samples=k)
+    sig = dict(policy=kind, env=name, decode=case["decode"], select_best=True)
+    with torch.no_grad():
+        torch.manual_seed(seed + 1)
+        try:
+            out = pol(td0.clone(), env, phase="train", decode_type=case["decode"], select_best=True, return_actions=True, return_sum_log_likelihood=False, **dk)
+            ev = pol(td0.clone(), env, phase="train", actions=out["actions"].clone(), return_sum_log_likelihood=False)
+        except Exception as e:
+            ctx.evaluation()
+            ctx.violation(dict(sig, q="forward_raises", exc=type(e).__name__), f"best-of-{k} decode / evaluation raised {type(e).__name__}: {str(e)[:200]}", dict(B=B, n=n))
+            return
+    ctx.count("c11_select_best_roundtrips", B)
+    ctx.evaluation(B)
+    if out["actions"].shape[0] != B or out["reward"].shape[0] != B:
+        ctx.violation(dict(sig, q="rows"), f"select_best returned {out['actions'].shape[0]} action rows / {out['reward'].shape[0]} rewards for {B} instances", None)
+        return
+    r0, r1 = out["reward"].reshape(B, -1)[:, 0], ev["reward"].reshape(B, -1)[:, 0]
+    if bool(((r0 - r1).abs() > 1e-5 * r1.abs().clamp(min=1.0)).any()):
+        b = int((r0 - r1).abs().argmax())
+        ctx.violation(dict(sig, q="roundtrip_reward"), f"instance {b}: best-of-{k} reports reward {float(r0[b])}, the actions it returns are worth {float(r1[b])} when evaluated on that instance", dict(B=B, n=n, k=k))
+        return
+    l0, l1 = out["log_likelihood"], ev["log_likelihood"]
+    off = 1 if case["decode"].startswith("multistart") else 0
+    L = min(l0.shape[1], l1.shape[1])
+    if l0.dim() == 2 and L > off and bool(((l0[:, off:L] - l1[:, off:L]).abs() > 1e-3).any()):
+        ctx.violation(dict(sig, q="roundtrip_logprob"), f"best-of-{k}: returned per-step log-probs differ from those of the returned actions by up to {float((l0[:, off:L] - l1[:, off:L]).abs().max()):.4g}", dict(B=B, n=n, k=k))
+        return
+    ctx.nontrivial_case(dict(c=case, a=out["actions"].tolist()))
+
+
+def ffsp_multistage_case(ctx, case):
+    """MatNet's multi-stage FFSP policy (own decode loop, one decoder per stage, all queried at every step): the returned
+    log-likelihood must be the sum, over steps, of the log-prob the decoder OF THE DECIDING STAGE gave to the job that was taken."""
+    from vlib.c14impl import pinned_matnet_randomness
+
+    env, O, cfg = policies.env_for("ffsp", 0, **case["extra"])
+    pol = policies.make("matnet_ffsp", env, seed=case.get("wseed", 0))
+    pol.test_decode_type = case.get("decode", "sampling")
+    torch.manual_seed(case["s"])
+    B = case["B"]
+    td0 = env.reset(env.generator(batch_size=[B]))
+    S_ = len(pol.decoders)
+    per_stage = [[] for _ in range(S_)]
+    origs = [d.forward for d in pol.decoders]
+
+    def mk(i):
+        def fwd(*a, **kw):
+            act, lp = origs[i](*a, **kw)
+            per_stage[i].append((act.clone(), lp.clone()))
+            return act, lp
+        return fwd
+
+    for i, d in enumerate(pol.decoders):
+        d.forward = mk(i)
+    steps = []
+    o_step = env.step
+
+    def step(td):
+        steps.append((td["stage_idx"].clone(), td["action"].clone()))
+        return o_step(td)
+
+    env.step = step
+    sig = dict(policy="matnet_ffsp", env="ffsp", decode=pol.test_decode_type)
+    try:
+        with torch.no_grad(), pinned_matnet_randomness(pol):
+            torch.manual_seed(case["s"] + 1)
+            out = pol(td0.clone(), env, phase="test", num_starts=1, return_actions=True)
+    except Exception as e:
+        ctx.evaluation()
+        ctx.violation(dict(sig, q="forward_raises", exc=type(e).__name__), f"multi-stage FFSP policy raised {type(e).__name__}: {str(e)[:200]}", None)
+        return
+    finally:
+        env.step = o_step
+        for d, f in zip(pol.decoders, origs):
+            d.forward = f
+    ctx.count("c11_ffsp_multistage_decodes")
+    T = len(steps)
+    if any(len(ps) != T for ps in per_stage):
+        ctx.count("c11_tap_missed")
+        return
+    want = torch.zeros(B, dtype=torch.float64)
+    changes = 0
+    for t, (stage, act) in enumerate(steps):
+        for b in range(B):
+            a_dec, lp_dec = per_stage[int(stage[b])][t]
+            if int(a_dec[b]) != int(act[b]):
+                ctx.evaluation()
+                ctx.violation(dict(sig, q="action_stage_pairing"), f"step {t}, instance {b}: the executed job {int(act[b])} is not the one chosen by the decoder of the deciding stage {int(stage[b])} ({int(a_dec[b])})", None)
+                return
+            want[b] += float(lp_dec[b])
+        if t > 0:
+            changes += int((stage != steps[t - 1][0]).sum())
+    ctx.count("c11_ffsp_stage_changes", changes)
+    ctx.evaluation(B)
+    ctx.count("c11_step_rows", B * T)
+    got = out["log_likelihood"].double().reshape(B)
+    if bool(((got - want).abs() > 1e-4 * want.abs().clamp(min=1.0)).any()):
+        b = int((got - want).abs().argmax())
+        ctx.violation(dict(sig, q="loglik_stage_pairing"), f"instance {b}: returned log-likelihood {float(got[b]):.5f} != sum of the deciding stages' log-probs of the executed jobs {float(want[b]):.5f}", dict(B=B, T=T))
+        return
+    ctx.nontrivial_case(dict(c=case, a=out["actions"].tolist()))
